@@ -202,8 +202,12 @@ public:
 
     GaloisFieldDict &operator+=(const integer_class &other)
     {
-        if (dict_.empty() or other == integer_class(0))
+        if (other == integer_class(0))
             return down_cast<GaloisFieldDict &>(*this);
+        if (dict_.empty()) {
+            *this = GaloisFieldDict(other, modulo_);
+            return down_cast<GaloisFieldDict &>(*this);
+        }
         integer_class temp = dict_[0] + other;
         mp_fdiv_r(temp, temp, modulo_);
         dict_[0] = temp;
